@@ -65,6 +65,19 @@ def _histories(ops_lines):
         yield start, cur
 
 
+def _mismatching_histories(ops, a, b, maxn):
+    """the histories (lists of op lines) of an op file on which the two result streams differ"""
+    lines = [l.rstrip("\n") for l in open(ops) if l.strip() and not l.startswith("#")]
+    ra, rb = open(a).read().split("\n"), open(b).read().split("\n")
+    res = []
+    for start, h in _histories(lines):
+        if ra[start:start + len(h)] != rb[start:start + len(h)]:
+            res.append(h)
+            if len(res) >= maxn:
+                break
+    return res
+
+
 def _crash(err):
     """first line of a Go runtime crash report (a goroutine of the implementation panicked: the process died)"""
     m = re.search(r"^(panic: .*|fatal error: .*)$", err, re.M)
@@ -294,6 +307,35 @@ def run(ctx):
         else:
             ctx.violation("impl-vs-model", "implementation and model differ (the property's clauses hold on this history)",
                           lines=small, annotations=ann, concrete=False)
+    # --- DESIGN 1.3: implementation and model differ but no failing input yet -> search the other
+    # disagreeing histories for one on which a clause of the property itself fails
+    if mism and not concrete_found:
+        tried = 0
+        for ops, a, b in streams:
+            if concrete_found or tried >= 80:
+                break
+            for hist in _mismatching_histories(ops, a, b, 40):
+                if "\n".join(hist) in seen_hist:
+                    continue
+                tried += 1
+                verdict = _judge(ctx, go, hist)
+                if not verdict:
+                    continue
+                left = [60]
+
+                def still(ls):
+                    if left[0] <= 0:
+                        return False
+                    left[0] -= 1
+                    return bool(_judge(ctx, go, ls))
+                small = ctx.ddmin(hist, still, keep_prefix=1)
+                verdict = _judge(ctx, go, small) or verdict
+                concrete_found = True
+                ctx.violation("impl-vs-spec", "implementation and model differ; searching the disagreeing histories found one on "
+                              "which the implementation contradicts the property: %s" % "; ".join(v[5:] for v in verdict[:3]),
+                              lines=small, annotations=["spec: " + v for v in verdict[:3]], concrete=True)
+                break
+        ctx.extra["search_after_mismatch"] = dict(histories_judged=tried, found=concrete_found)
     # --- coverage gaps
     want = ["close:closed", "close:blocked", "close:panic", "addtasks:refused", "kill:panic", "apperr:panic", "stop:panic",
             "on:panic", "child:invalid", "donetask:undisciplined", "branch:cascade-of-closes",
